@@ -46,8 +46,8 @@ class State(tuple):
     """(inc, dec, first, fresh, destroy, tested, null, distinct, bad_destroy, decvar)"""
     __slots__ = ()
 
-    def __new__(cls, inc=0, dec=0, first='', fresh=-1, destroy=0, tested=False, null=False, distinct=False, bad=False, decvar=-1, lastdec=-1):
-        return tuple.__new__(cls, (inc, dec, first, fresh, destroy, tested, null, distinct, bad, decvar, lastdec))
+    def __new__(cls, inc=0, dec=0, first='', fresh=-1, destroy=0, tested=False, null=False, distinct=False, bad=False, decvar=-1, lastdec=-1, tmp=-1, swapped=False):
+        return tuple.__new__(cls, (inc, dec, first, fresh, destroy, tested, null, distinct, bad, decvar, lastdec, tmp, swapped))
 
     inc = property(lambda s: s[0])
     dec = property(lambda s: s[1])
@@ -60,9 +60,11 @@ class State(tuple):
     bad = property(lambda s: s[8])        # a destruction happened outside a decrement-and-test branch
     decvar = property(lambda s: s[9])     # local variable holding the value returned by the decrement
     lastdec = property(lambda s: s[10])   # id() of the most recent decrement call node (to recognise its test)
+    tmp = property(lambda s: s[11])       # local handle copy-constructed from the argument (copy-and-swap): its id, or -1
+    swapped = property(lambda s: s[12])   # the storage of *this was swapped with that local's
 
     def set(self, **kw):
-        names = ('inc', 'dec', 'first', 'fresh', 'destroy', 'tested', 'null', 'distinct', 'bad', 'decvar', 'lastdec')
+        names = ('inc', 'dec', 'first', 'fresh', 'destroy', 'tested', 'null', 'distinct', 'bad', 'decvar', 'lastdec', 'tmp', 'swapped')
         vals = list(self)
         for k, v in kw.items():
             vals[names.index(k)] = v
@@ -123,6 +125,13 @@ class RCAnalysis:
                 ini = strip(v.get('init') or {})
                 if count_op(ini) == 'dec' or (ini.get('k') == 'cast' and count_op(strip(ini.get('e', {})) or {}) == 'dec'):
                     return st.set(decvar=v['id'])
+                # copy-and-swap: `Handle t(b);` with b a parameter is the acquire of the new object (the copy constructor is
+                # checked on its own); the matching release is t's destructor at the end of the function, and what it
+                # releases is decided by whether the storage of *this was swapped into t
+                vt = T(f, v['t'])
+                if depth == 0 and f.get('n') == 'operator=' and vt.get('rec') == f.get('cls') and not vt.get('ref') and not vt.get('ptr') and \
+                        ini.get('k') == 'construct' and ini.get('copy') and len(ini.get('a') or []) == 1 and strip_lv(ini['a'][0]).get('vk') == 'param' and st.tmp == -1:
+                    return st.set(inc=min(st.inc + 1, 3), first=st.first or 'i', tmp=v['id'])
                 return st
             if n.kind not in ('ev', 'init'):
                 return st
@@ -159,6 +168,23 @@ class RCAnalysis:
                     return st
                 if fn in ('free', '::free') or e.get('pq') == 'free':
                     return self._destroy(st)
+                if st.tmp != -1 and (e.get('pq') or fn).split('<')[0].split('::')[-1] == 'swap' and len(e.get('a') or []) == 2:
+                    x, y = strip_lv(e['a'][0]), strip_lv(e['a'][1])
+
+                    def side(w):
+                        # 'this' / 'tmp' for the handle itself or its storage member
+                        if w.get('k') == 'mem' and w.get('f') == fam['storage']:
+                            b_ = strip_lv(w.get('b') or {})
+                            if b_.get('k') in (None, 'this'):
+                                return 'this'
+                            return 'tmp' if b_.get('k') == 'var' and b_.get('id') == st.tmp else None
+                        if w.get('k') == 'var' and w.get('id') == st.tmp:
+                            return 'tmp'
+                        if w.get('k') == 'un' and w.get('op') == '*' and strip_lv(w['e']).get('k') == 'this':
+                            return 'this'
+                        return None
+                    if set((side(x), side(y))) == set(('this', 'tmp')):
+                        return st.set(swapped=True)
                 if e.get('clsp') in family and e.get('fn') and depth < 4 and own_object(f, e, family):
                     cands = self.prog.fn(e['fn'], e.get('sig'))
                     if cands and cands[0] is not f:
@@ -399,11 +425,17 @@ def check_family(ctx, prog, name, prop_tag=''):
             ctx.check(not problems, 'R-RC.c', f['pq'], role_base + ':pairing', fwhere(f), 'exactly one decrement when the handle is non-null',
                       '; '.join(sorted(set(problems))) + ' in ' + inst)
         else:
+            pt_ref = bool(f['params']) and bool(T(f, f['params'][0]['t']).get('ref'))
             if not touches:
                 ctx.ok('R-RC.c', f['pq'], role_base + ':pairing', fwhere(f), 'forwards to another assignment (no count event of its own)', nontrivial=False)
                 continue
             problems, order = [], []
             for s in exits:
+                if s.tmp != -1:
+                    # the local copy is destroyed on the way out: one release - of the old object if the storage was swapped
+                    if not s.swapped:
+                        problems.append('a copy of the argument is made but its storage is never swapped with this handle (the assignment has no effect)')
+                    s = s.set(dec=min(s.dec + 1, 3), first=s.first or 'd')
                 acq = s.inc + (1 if s.fresh not in (-1, 99) and s.fresh == 1 else 0)
                 if s.fresh not in (-1, 1):
                     problems.append('fresh object installed with count %s' % s.fresh)
@@ -415,6 +447,10 @@ def check_family(ctx, prog, name, prop_tag=''):
                     problems.append('a path releases %d reference(s)' % s.dec)
                 if s.inc and s.dec and s.first == 'd' and not s.distinct:
                     order.append('the old object is released before the new one is acquired and no identity guard separates the two')
+                elif s.inc and s.dec and s.first == 'd' and (pt_ref or f.get('copyassign')):
+                    # distinct objects, but the argument handle itself may live inside the object released first (cur = cur->next):
+                    # its destruction destroys the argument before the new reference is taken
+                    order.append('the old object is released before the new one is acquired: when the argument handle is stored inside the old object (cur = cur->next) the release destroys the argument, and the acquire then reads freed memory')
             ctx.check(not problems, 'R-RC.c', f['pq'], role_base + ':pairing', fwhere(f), 'one acquire and one release on every assigning path',
                       '; '.join(sorted(set(problems))) + ' in ' + inst)
             ctx.check(not order, 'R-RC.d', f['pq'], role_base + ':acquire-before-release', fwhere(f),
